@@ -41,6 +41,13 @@ from ..core import Sim, run_sim
 from . import compreg
 from .common import DTS, SimError, SimLookup, contains_cancel, is_cancel, pick, rpause
 
+
+class SimTimeout(TimeoutError):
+    """A component's own TimeoutError (e.g. a connect timeout) - not a start-up timeout."""
+
+
+FAIL_CLASSES = {"SimError": SimError, "SimLookup": SimLookup, "SimTimeout": SimTimeout}
+
 NAME = "components"
 PROPS = ("C05", "C06", "C07", "C14", "C02", "C12")
 RT = compreg.RTYPES
@@ -125,11 +132,20 @@ class H:
         self.round = 0
         self.ndecoy = 0
 
-    def val(self, tag: str) -> Any:
+    def val(self, tag: str, falsy: bool = False) -> Any:
         class V:
             pass
 
-        v = V()
+        class F:
+            """A resource object that happens to be falsy (empty container, zero, ...)."""
+
+            def __bool__(self) -> bool:
+                return False
+
+            def __len__(self) -> int:
+                return 0
+
+        v = F() if falsy else V()
         self.vals[id(v)] = tag
         self.keep.append(v)
         return v
@@ -160,7 +176,7 @@ class H:
             else:
                 inst.add_component(c["alias"], type_form(c, tf), **kw)
         if n.get("fail_init"):
-            e = (SimError if n["fail_init"] == "SimError" else SimLookup)(f"init {path}")
+            e = FAIL_CLASSES.get(n["fail_init"], SimError)(f"init {path}")
             e.tag = f"F:{path}:creating"  # type: ignore[attr-defined]
             sim.fault("raise_in_constructor")
             sim.log("fail", path=path, phase="creating", tag=e.tag)  # type: ignore[attr-defined]
@@ -200,9 +216,22 @@ class H:
             elif op == "stall":
                 sim.stall(a[1])
             elif op == "fail":
-                e = (SimError if a[1] == "SimError" else SimLookup)(f"{phase} {path}")
-                e.tag = f"F:{path}:{phase}"  # type: ignore[attr-defined]
                 sim.fault("raise_in_" + phase)
+                if a[1] == "conflict":
+                    # the single failure is a rejected add_resource(): a second resource under
+                    # a key this very phase has just published, with a teardown callback
+                    sim.log("fail", path=path, phase=phase, tag="ResourceConflict")
+                    t_conf = RT[len(RT) - 2]
+                    add_resource(self.val(f"pre_{path}"), "conflict_key", [t_conf])
+
+                    def rogue() -> None:
+                        sim.log("td_run", td=f"rogue_{path}")
+
+                    add_resource(self.val(f"dup_{path}"), "conflict_key", [t_conf], teardown_callback=rogue)
+                    sim.log("note", what="conflict_not_raised")
+                    continue
+                e = FAIL_CLASSES[a[1]](f"{phase} {path}")
+                e.tag = f"F:{path}:{phase}"  # type: ignore[attr-defined]
                 sim.log("fail", path=path, phase=phase, tag=e.tag)  # type: ignore[attr-defined]
                 raise e
 
@@ -220,18 +249,18 @@ class H:
 
                 async def afac() -> Any:
                     await sim.pause(0, spec.get("fdur", 0.0))
-                    v = h.val(f"g_{rid}")
+                    v = h.val(f"g_{rid}", bool(spec.get("falsy")))
                     sim.log("fac_product", rid=rid, val=h.vtag(v))
                     return v
 
                 def sfac() -> Any:
-                    v = h.val(f"g_{rid}")
+                    v = h.val(f"g_{rid}", bool(spec.get("falsy")))
                     sim.log("fac_product", rid=rid, val=h.vtag(v))
                     return v
 
                 add_resource_factory(afac if spec.get("fdur") is not None else sfac, name, types=types, **kw)
             else:
-                v = self.val(rid)
+                v = self.val(rid, bool(spec.get("falsy")))
                 if spec.get("td"):
                     tdid = f"rtd_{rid}"
 
@@ -276,7 +305,15 @@ class H:
         wid = spec["wid"]
         sim.log("wait_begin", wid=wid, path=path, type=t.__name__, name=name, opt=bool(spec.get("opt")))
         try:
-            if spec.get("opt"):
+            if spec.get("giveup") is not None:
+                v = None
+                with move_on_after(spec["giveup"]) as scope:
+                    v = await get_resource(t, name)
+                if scope.cancelled_caught:
+                    sim.fault("wait_given_up")
+                    sim.log("wait_end", wid=wid, path=path, out="gaveup", val=None)
+                    return
+            elif spec.get("opt"):
                 v = await get_resource(t, name, optional=True)
             else:
                 v = await get_resource(t, name)
@@ -452,7 +489,7 @@ def make_main(plan: dict):
                                 phase=e.phase,
                                 path=e.path,
                                 ctype=getattr(e.component_type, "__name__", str(e.component_type)),
-                                cause=getattr(e.__cause__, "tag", repr(e.__cause__)[:60]),
+                                cause=getattr(e.__cause__, "tag", type(e.__cause__).__name__),
                             )
                         else:
                             d["msg"] = str(e)[:80]
@@ -703,7 +740,8 @@ def oracle(sim: Sim, plan: dict) -> list[dict]:
                 if a[0] == "fail":
                     fail_plan = (path, "preparing" if ph == "prepare" else "starting")
     tau = plan.get("timeout", 20) if "timeout" in plan else 20
-    exact_time = not model["has_stall"] and plan.get("outer_cancel") is None
+    loose = _has_giveup(plan)
+    exact_time = not model["has_stall"] and plan.get("outer_cancel") is None and not loose
 
     for rnd in range(rounds):
         tr = [r for r in sim.trace if r[5].get("round", rnd) == rnd or "round" not in r[5]]
@@ -830,6 +868,18 @@ def oracle(sim: Sim, plan: dict) -> list[dict]:
             expect = "any"
         elif model["has_stall"]:
             expect = "any"
+        elif loose:
+            # local give-ups / slow factories make the exact instant schedule-dependent;
+            # completion itself is still required when nothing can time out
+            slack = 0.0
+            for _p, n_ in nodes.items():
+                for ph_ in ("prepare", "start"):
+                    for a_ in n_.get(ph_) or ():
+                        if a_[0] == "wait" and a_[1].get("giveup") is not None:
+                            slack += a_[1]["giveup"]
+                        elif a_[0] == "wait":
+                            slack += 2.0  # at most one slow generation in front of it
+            expect = "complete" if (finish is not None and (not tau or finish + slack < tau)) else "any"
         elif finish is None:
             expect = "timeout" if tau else "hang"
         elif tau and finish > tau:
@@ -857,6 +907,10 @@ def oracle(sim: Sim, plan: dict) -> list[dict]:
                 if late:
                     v("C06.late_wakeup", "finish_late", f"start-up finished at t0+{sc_end[5]['t'] - t0}, critical path {finish}")
                     v("C07.timeout", "lingering", f"start-up finished at t0+{sc_end[5]['t'] - t0}, critical path {finish}")
+        elif expect == "complete":
+            if sc_end[4] != "sc_return":
+                v("C05.complete", "unexpected_failure", f"start-up of an acyclic plan failed: {sc_end[5]}")
+                v("C06.lost_wakeup", _lost_key(plan), f"start-up of an acyclic plan failed: {sc_end[5]}")
         elif expect == "timeout":
             if sc_end[4] != "sc_raise" or sc_end[5].get("cls") != "TimeoutError":
                 v("C07.timeout", "not_raised", f"start-up cannot finish before the timeout ({tau}) but start_component gave {sc_end[4]} {sc_end[5]}")
@@ -883,8 +937,11 @@ def oracle(sim: Sim, plan: dict) -> list[dict]:
                 if d["ctype"] != node_cls(n).__name__:
                     v("C07.error", "component_type", f"ComponentStartError.component_type={d['ctype']}, expected {node_cls(n).__name__}")
                 tagphase = {"creating": "creating", "preparing": "prepare", "starting": "start"}[fphase]
-                if d["cause"] != f"F:{fpath}:{tagphase}":
-                    v("C07.error", "cause", f"ComponentStartError.__cause__ is {d['cause']}, expected the injected exception F:{fpath}:{tagphase}")
+                want_cause = f"F:{fpath}:{tagphase}"
+                if any(r[4] == "fail" and r[5].get("tag") == "ResourceConflict" for r in tr):
+                    want_cause = "ResourceConflict"
+                if d["cause"] != want_cause:
+                    v("C07.error", "cause", f"ComponentStartError.__cause__ is {d['cause']}, expected the injected exception {want_cause}")
                 if exact_time and model["fail"] is not None and abs((d["t"] - t0) - model["fail"]) > 1e-9:
                     v("C07.prompt", "instant", f"failure struck at t0+{model['fail']} but start_component raised at t0+{d['t'] - t0}")
             # ancestors' start() must not run
@@ -943,7 +1000,7 @@ def oracle(sim: Sim, plan: dict) -> list[dict]:
                 if w is None:
                     continue
                 where = f"{w['path']}: get_resource({w['type']},{w['name']!r})"
-                if d["out"] == "cancelled":
+                if d["out"] in ("cancelled", "gaveup"):
                     continue
                 if d["out"] != "ok":
                     v("C06.failed", "exception", f"{where} raised {d['out']}")
@@ -1041,6 +1098,17 @@ def oracle(sim: Sim, plan: dict) -> list[dict]:
             if x["rule"] in ("C06.lost_wakeup", "C06.late_wakeup", "C06.deadlock"):
                 x["key"] = "burst>50"
     return V
+
+
+def _has_giveup(plan: dict) -> bool:
+    for _p, n in walk(plan["tree"]):
+        for ph in ("prepare", "start"):
+            for a in n.get(ph) or ():
+                if a[0] == "wait" and a[1].get("giveup") is not None:
+                    return True
+                if a[0] == "pub" and a[1].get("fdur"):
+                    return True
+    return False
 
 
 def _overflow50(sim: Sim) -> bool:
@@ -1238,8 +1306,11 @@ class G:
                     ti, nm, isfac, fdur = rng.choice(avail)
                     self.nw += 1
                     w: dict[str, Any] = {"wid": f"w{self.nw}", "t": ti, "name": nm}
-                    if rng.random() < 0.12:
+                    if rng.random() < 0.12 and not fdur:
                         w["opt"] = True
+                    elif self.prop == "C06" and isfac and fdur and rng.random() < 0.4:
+                        # this waiter loses patience while the factory is still working
+                        w["giveup"] = rng.choice((0.25, 0.5, 1.0))
                     acts.append(["wait", w])
                 elif r < 0.8 and self.nt < len(RT) - 2:
                     self.nt += 1
@@ -1248,11 +1319,15 @@ class G:
                     if rng.random() < 0.2 and self.nt < len(RT) - 2:
                         self.nt += 1
                         spec["t2"] = self.nt - 1
+                    if rng.random() < 0.2:
+                        spec["falsy"] = True
                     rr = rng.random()
                     if rr < 0.2:
                         spec["fac"] = True
                         if rng.random() < 0.6:
                             spec["fdur"] = 0.0
+                            if self.prop == "C06" and rng.random() < 0.4:
+                                spec["fdur"] = rng.choice((0.5, 1.0, 2.0))
                     elif rr < 0.4:
                         spec["td"] = True
                     if rng.random() < 0.15:
@@ -1344,7 +1419,9 @@ def gen(rng: random.Random, tier: str, prop: str) -> dict:
         path, n = rng.choice(nodes)
         phases = ["creating"] + [ph for ph in ("prepare", "start") if n.get(ph) is not None]
         ph = rng.choice(phases)
-        cls = rng.choice(("SimError", "SimLookup"))
+        cls = rng.choice(("SimError", "SimLookup", "SimTimeout", "conflict"))
+        if ph == "creating" and cls == "conflict":
+            cls = "SimTimeout"
         if ph == "creating":
             n["fail_init"] = cls
         else:
